@@ -2,6 +2,7 @@ pub mod driver;
 pub mod fuzz;
 pub mod gen;
 pub mod model;
+pub mod oracle;
 pub mod phon;
 pub mod props;
 pub mod runner;
